@@ -243,3 +243,15 @@ Proof. vm_compute. eexists. eexists. split; [reflexivity|]. split; reflexivity. 
 
 Example inv_example : inv (ring_new 100 (fun _ => 0)) /\ ring_capacity (ring_new 100 (fun _ => 0)) = 127.
 Proof. split; [apply ring_new_inv; lia|reflexivity]. Qed.
+
+(* what "exceeds the free space" means in the code: amend_write tests the transaction's own copy of
+   the read head, so the room is the write space at begin_write.  Here the ring (capacity 7) is
+   full at begin_write; the reader then frees 3 bytes; amend of 1 byte is still refused (and a
+   fresh begin_write sees the space).  ring_step_refines / ring_refines_queue state this through
+   the spec field `room`. *)
+Example tx_room_is_snapshot_example :
+  let h := [OWrite [1;2;3;4;5;6;7]; OBegin; ORead 3; OAmend [8]; OBegin; OAmend [8]; OCommit] in
+  map fst (snd (ring_run (ring_init 8 (fun _ => 0)) h)) = [7; 0; 3; ST_NO_MEM; 0; ST_SUCCESS; ST_SUCCESS] /\
+  abs (fst (fst (ring_run (ring_init 8 (fun _ => 0)) h))) = [4;5;6;7;8] /\
+  exists s' outs, spec_run (spec_capacity 8) spec_init h = Some (s', outs) /\ sq s' = [4;5;6;7;8].
+Proof. vm_compute. split; [reflexivity|]. split; [reflexivity|]. eexists. eexists. split; reflexivity. Qed.
